@@ -21,10 +21,10 @@ var lim = kernel.Limits{MaxSteps: 400, SettleSteps: 1200}
 
 // Specs lists the checks this world binary serves.
 func Specs() []kernel.Spec {
-	return []kernel.Spec{
+	return lockSpecs([]kernel.Spec{
 		{Prop: "C20", Mk: New(Mode{}), Limits: lim},
 		{Prop: "C16ctl", Mk: New(Mode{Ctl: true}), Limits: lim},
-	}
+	}, lim)
 }
 
 func TestSim(t *testing.T) { kernel.Main(t, "migrate", Specs()) }
